@@ -88,6 +88,10 @@ def recheck(d, meta, patch):
 
 def main(argv):
     run = '--run' in argv
+    key = 'recheck'
+    if '--seed' in argv:      # the same regression under another workload seed: is a detection seed-dependent?
+        os.environ['VERIF_SEED'] = argv[argv.index('--seed') + 1]
+        key = 'recheck_seed_' + os.environ['VERIF_SEED']
     only = None
     if '--only' in argv:
         only = set(argv[argv.index('--only') + 1].split(','))
@@ -105,14 +109,14 @@ def main(argv):
         else:
             summary['applies' if how == 'applies' else 'ported'] += 1
             if run:
-                meta['recheck'] = recheck(d, meta, patch)
+                meta[key] = recheck(d, meta, patch)
                 summary['rechecked'] += 1
-                if not meta['recheck'].get('caught_by'):
-                    if meta['recheck'].get('demo_exit_with_change') == 0:
+                if not meta[key].get('caught_by'):
+                    if meta[key].get('demo_exit_with_change') == 0:
                         summary.setdefault('neutralised_by_later_fix', []).append(sid)
                     else:
                         summary['lost'].append(sid)
-                print(sid, how, 'recheck caught by:', meta['recheck'].get('caught_by'), flush=True)
+                print(sid, how, key, 'caught by:', meta[key].get('caught_by'), flush=True)
         json.dump(meta, open(mp, 'w'), indent=1)
     print(json.dumps(summary))
 
